@@ -12,6 +12,7 @@ SPEC = dict(
             dict(name="c37_faithful", bounds="reference-encoded reply: id/flags/nscount/arcount/qtype/qclass/class/ttl fully symbolic; question name of 0..2 labels of 1..2 arbitrary octets; 0..1 record of type A/AAAA/PTR/CNAME with fully symbolic address octets; owner and PTR/CNAME target either spelled out (0..2 labels of 1 arbitrary octet), or a pointer to the question name, or label+pointer into the question name", reach=["rcode", "records", "norecords"], sample_every=197),
             dict(name="c37_query", bounds="hostname of 1..4 symbolic octets (non-empty labels, optional trailing dot), qid symbolic, EDNS off; rfc1035BuildAQuery, rfc3596BuildAQuery/AAAAQuery/HostQuery(PTR); and the reverse-lookup builders rfc1035BuildPTRQuery / rfc3596BuildPTRQuery4 for 10.b.0.b, rfc3596BuildPTRQuery6 for 2001:0:0:00b::b with 2 fully symbolic octets", reach=["plain"], sample_every=17),
             dict(name="c37_query_edns", bounds="as c37_query with hostname of 1..3 octets and EDNS on with any advertised size 1..65535 (OPT pseudo-record checked octet by octet); no native differential replay (the real packer calls memcpy(dst, nullptr, 0), which the UBSan build aborts on)", reach=["edns"], max_samples=0),
+            dict(name="c37_known_root_pointer", known=True, bounds="KNOWN FINDING C37-root-pointer-trailing-dot only: the c37_faithful reference-encoded reply (1 record) restricted to messages in which the owner or the PTR/CNAME target is a label followed by a compression pointer to a root (empty) question name; strict assertion 'decoded name equals the encoded one'; its violations are listed in known_findings.json and printed as KNOWN-FINDING", reach=[], max_samples=0, sample_every=0),
         ],
         thorough=[
             dict(name="c37_any", bounds="as quick, datagrams up to 20 octets", reach=["rejected", "rcode", "norecords"], sample_every=9973),
@@ -22,12 +23,14 @@ SPEC = dict(
             dict(name="c37_faithful2", bounds="as quick with 0..2 records, all labels 1 octet", reach=["rcode", "records", "norecords"], sample_every=3001),
             dict(name="c37_query", bounds="as quick, hostname of 1..6 octets", reach=["plain"]),
             dict(name="c37_query_edns", bounds="as quick, hostname of 1..5 octets", reach=["edns"], max_samples=0),
+            dict(name="c37_known_root_pointer", known=True, bounds="KNOWN FINDING C37-root-pointer-trailing-dot only: the c37_faithful reference-encoded reply (1 record) restricted to messages in which the owner or the PTR/CNAME target is a label followed by a compression pointer to a root (empty) question name; strict assertion 'decoded name equals the encoded one'; its violations are listed in known_findings.json and printed as KNOWN-FINDING", reach=[], max_samples=0, sample_every=0),
         ]),
     timeout=dict(quick=170, thorough=900),
     stubs=["libc strtok/strncasecmp/snprintf models (C locale)", "xmalloc/xcalloc/xfree = engine heap (allocation never fails)", "debugs() disabled",
            "compat/xstring.cc is #included by the harness with its xstrdup renamed (the engine models xstrdup); xstrncpy is the real one",
            "Config.dns.packet_max set by the harness on the real zero-initialised SquidConfig global",
            "harness pre-splits (exhaustively, no assumption) the octets that act as label lengths / pointer targets / RDLENGTH so that the decoder's offsets are concrete on every path"],
-    assumptions=["c37_query_edns: interpreter only (KNOWN-FINDING candidate: memcpy(dst, nullptr, 0) in rfc1035RRPack when called from rfc2671RROptPack)", "c37_faithful: a compression pointer is only taken to a non-root name (label + pointer-to-root decodes with a trailing dot: reported as KNOWN-FINDING candidate)"],
+    assumptions=["KNOWN FINDING C37-root-pointer-trailing-dot (a label followed by a compression pointer to a root name decodes with a trailing dot) is examined by c37_known_root_pointer and excluded from the other faithfulness entries",
+                 "c37_query_edns is interpreter only (max_samples=0): with EDNS on the real packer executes memcpy(dst, nullptr, 0) in rfc1035RRPack (called from rfc2671RROptPack) - undefined by the letter, harmless in practice - on which the native UBSan replay build aborts; not a decoding error, not counted as a finding of this property"],
     outside="datagrams longer than the bounds; more than 2 answer records; fully symbolic datagrams beyond 18/20 octets (longer ones only as the listed skeleton families); names longer than 3 labels x 2 octets in the faithfulness family; the UDP/TCP receive path and idnsGrokReply's bookkeeping (only its use of the decoded message is mirrored); CNAME rdata is compared as received octets (Squid does not decompress CNAME targets)",
 )
